@@ -1,2 +1,5 @@
 pub mod alpha;
+pub mod bf;
 pub mod big;
+pub mod oracle;
+pub mod rf;
